@@ -48,7 +48,8 @@ Json gen(sim::Rng& rng, int tier)
             reqs.push(q);
         }
         c["requests"] = reqs;
-        c["start_us"] = static_cast<int>(rng.below(3000));
+        // some clients are already waiting in the accept queue when the acceptor and the workers start
+        c["start_us"] = rng.chance(0.3) ? 0 : static_cast<int>(rng.below(3000));
         c["latency_us"] = static_cast<int>(5 + rng.below(300));
         clients.push(c);
     }
